@@ -130,10 +130,10 @@ var propDrift = hx.Prop[DCase]{
 		"non-trivial = the concurrent phase contained a removal or purge and its deliveries exceeded the limit (evictions ran); distinct = distinct case JSON",
 	Quick: 150, Thorough: 1500,
 	Gen: func(t *rapid.T) DCase {
-		c := DCase{Cap: rapid.SampledFrom([]int{0, 0, 2, 3}).Draw(t, "cap"), MaxKB: rapid.SampledFrom([]int{1, 2, 2, 4}).Draw(t, "maxkb")}
+		c := DCase{Cap: rapid.SampledFrom([]int{0, 2, 2, 3}).Draw(t, "cap"), MaxKB: rapid.SampledFrom([]int{1, 2, 2, 4}).Draw(t, "maxkb")}
 		c.Boxes = hx.BoxesGen(2, 3).Draw(t, "boxes")
 		wop := rapid.Custom(func(t *rapid.T) WOp {
-			o := WOp{K: rapid.SampledFrom([]string{"add", "add", "add", "remove", "remove", "purge"}).Draw(t, "k"), Box: rapid.IntRange(0, 2).Draw(t, "box")}
+			o := WOp{K: rapid.SampledFrom([]string{"add", "add", "add", "remove", "remove", "purge", "list", "list"}).Draw(t, "k"), Box: rapid.IntRange(0, 2).Draw(t, "box")}
 			switch o.K {
 			case "add":
 				o.Size = rapid.SampledFrom([]int{60, 200, 300, 500, 700, 1000, 1500}).Draw(t, "size")
@@ -165,6 +165,7 @@ func runDrift(c DCase) *hx.Outcome {
 	live := map[string][]string{} // ids delivered and not yet asked to go, oldest first (a belief, not a model)
 	var delivered int64
 	cleared := false
+	overCap := ""
 	var wg sync.WaitGroup
 	done := make(chan struct{})
 	for _, w := range c.Workers {
@@ -201,6 +202,14 @@ func runDrift(c DCase) *hx.Outcome {
 					cleared = true
 					mu.Unlock()
 					_ = st.PurgeMessages(box)
+				case "list":
+					// "a mailbox never lists more than the cap": also not for a moment, to a reader
+					// that looks while a delivery is under way
+					if ms, err := st.GetMessages(box); err == nil && c.Cap > 0 && len(ms) > c.Cap {
+						mu.Lock()
+						overCap = fmt.Sprintf("a reader listed %d messages in mailbox %q although the cap is %d", len(ms), box, c.Cap)
+						mu.Unlock()
+					}
 				}
 			}
 		}(w)
@@ -211,6 +220,9 @@ func runDrift(c DCase) *hx.Outcome {
 	case <-time.After(20 * time.Second):
 		o.Failf(pid+":hang", "[mem cap=%d maxkb=%d] the concurrent phase did not finish within 20 s", c.Cap, c.MaxKB)
 		return o
+	}
+	if overCap != "" {
+		o.Failf(pid+":over-cap", "[mem cap=%d maxkb=%d] during the concurrent phase %s", c.Cap, c.MaxKB, overCap)
 	}
 	var total int64
 	_ = st.VisitMailboxes(func(ms []storage.Message) bool {
